@@ -104,8 +104,9 @@ func vp9Decode(b []byte) Ev { return vp9DecodeInto(&codecs.VP9Packet{}, b) }
 
 // a VP9Packet that has decoded descriptors with every optional part present before (flexible mode with
 // picture id, layer indices, reference indices and a scalability structure; then non-flexible with TL0PICIDX)
-func vp9Used() *codecs.VP9Packet {
+func vp9Used(za bool) *codecs.VP9Packet {
 	p := &codecs.VP9Packet{}
+	p.SetZeroAllocation(za)
 	for _, prior := range [][]byte{
 		{255, 129, 35, 53, 3, 4, 56, 2, 128, 1, 224, 1, 64, 0, 240, 2, 52, 1, 88, 2, 3, 9, 9, 9},
 		{160, 129, 1, 34, 7, 9},
@@ -137,7 +138,7 @@ func runC12(raw json.RawMessage, w *Writer) {
 	case "decode":
 		b := bytesOf(c.Bytes)
 		d := vp9Decode(b)
-		u := vp9DecodeInto(vp9Used(), b)
+		u := vp9DecodeInto(vp9Used(len(b)%2 == 1), b) // every other case: zero-allocation mode
 		w.Emit(Ev{"ev": "decode", "bytes": c.Bytes, "dlen": c.Dlen, "want": c.Want, "wantok": c.WantOk, "res": d["res"], "f": d["f"], "out": d["out"], "head": d["head"],
 			"used": Ev{"res": u["res"], "f": u["f"], "out": u["out"]}})
 	case "header":
